@@ -1750,6 +1750,15 @@ impl DhtNetworkManager {
         peer_id: &PeerId,
         operation: DhtNetworkOperation,
     ) -> Result<DhtNetworkResult> {
+        // Once shutdown has been signalled no new request may leave this node: lookups, puts and
+        // gets that are still in flight when `stop()` runs must wind down instead of issuing
+        // further RPCs. (`stop()` sends its leave messages before it cancels the token.)
+        if self.shutdown.is_cancelled() {
+            return Err(P2PError::Network(NetworkError::ProtocolError(
+                "DHT network manager is shutting down".into(),
+            )));
+        }
+
         // Sweep stale entries left by dropped futures before adding a new one
         self.sweep_expired_operations();
 
